@@ -221,7 +221,9 @@ macro_rules! point_check {
             }
             // 2. unchecked parsing may only accept canonical encodings of curve points, and must re-encode to the input
             if let Ok(p) = &unchecked {
-                if !rv.canonical {
+                if !rv.canonical && checked.is_ok() {
+                    // already reported under 1.
+                } else if !rv.canonical {
                     out.v(
                         &format!("C16/{tag}/unchecked-accepts-noncanonical"),
                         format!("{} from_bytes_unchecked -> Ok({}); by the definition the string is: {}", hx(s), hx(&p.to_bytes()), rv.class),
@@ -242,13 +244,11 @@ macro_rules! point_check {
                         format!("{} from_bytes Ok({}) but from_bytes_unchecked {:?}", hx(s), hx(&p.to_bytes()), other.as_ref().map(|q| hx(&q.to_bytes()))),
                     ),
                 }
-                if p.to_bytes() != *arr {
-                    out.v(&format!("C16/{tag}/roundtrip"), format!("{} parses to an element that serializes as {}", hx(s), hx(&p.to_bytes())));
-                }
                 let mut streamed = Vec::new();
                 let r = p.stream(&mut streamed);
-                if r.is_err() || streamed != s {
-                    out.v(&format!("C16/{tag}/roundtrip"), format!("{} parses, but stream() gives {:?} {}", hx(s), r, hx(&streamed)));
+                // (when the acceptance itself is wrong, 1. already says so)
+                if rv.checked_ok && (p.to_bytes() != *arr || r.is_err() || streamed != s) {
+                    out.v(&format!("C16/{tag}/roundtrip"), format!("{} parses to an element that serializes as {} / stream() {:?} {}", hx(s), hx(&p.to_bytes()), r, hx(&streamed)));
                 }
             }
             // 4. the Streamable entry points give the same verdicts / elements as the inherent ones
@@ -882,7 +882,7 @@ fn pad48(v: &BigUint) -> Option<Vec<u8>> {
 }
 
 /// strings shared by both groups: n = 48 or 96
-fn point_strings(cx: &Ctx, g: Group, bases: &[Vec<u8>], dense_bases: usize, small: (u32, u32)) -> BTreeSet<Vec<u8>> {
+fn point_strings(cx: &Ctx, g: Group, bases: &[Vec<u8>], positions_of: &dyn Fn(usize) -> Vec<usize>, small: (u32, u32)) -> BTreeSet<Vec<u8>> {
     let n = if g == Group::G1 { 48 } else { 96 };
     let p = &cx.f.p;
     let mut set: BTreeSet<Vec<u8>> = BTreeSet::new();
@@ -892,14 +892,7 @@ fn point_strings(cx: &Ctx, g: Group, bases: &[Vec<u8>], dense_bases: usize, smal
             set.insert(sub_byte(base, 0, (base[0] & 0x1f) | (flags << 5)));
         }
         // single-byte substitutions by all 256 values
-        let positions: Vec<usize> = if bi < dense_bases {
-            (0..n).collect()
-        } else if g == Group::G1 {
-            vec![0, 1, 47]
-        } else {
-            vec![0, 1, 47, 48, 95]
-        };
-        for pos in positions {
+        for pos in positions_of(bi) {
             for v in 0..=255u8 {
                 set.insert(sub_byte(base, pos, v));
             }
@@ -1133,14 +1126,14 @@ fn run(rep: &Report) {
     rep.set_rule(
         "keys: from_seed([i;32]) for i<16 (quick) / i<64 (thorough) plus scalars {0,1,2,3,r-1,r-2,(r-1)/2,(r+1)/2}; \
          derivation: every path over indices {0,1,2,2^31-1,2^31,2^32-1} of length <=2 (quick) / <=3 (thorough) from every key, both routes at every step, plus the wallet paths 12381/8444/2[/idx]; \
-         synthetic: every key x hidden hash in {derive_synthetic() default, explicit default, 00.., ff.., [k;32] k=1..4 (thorough ..12)}; addition: every ordered pair of keys; \
-         signing: every key x 6 messages (lengths 0,1,5,32,256,1000); pairing values: ordered pairs of 6 non-zero keys; \
-         byte strings: for the base encodings (G1: G, -G, seed keys, keys whose x+p still fits 381 bits; G2: G2 generator, its negation, signatures) all 8 flag combinations, \
-         every single-byte substitution by all 256 values at bytes {0,1,last} (G2 also {47,48}) and at every byte position for the first 1 (quick: 0) base(s) in thorough, \
-         non-reduced aliases x+kp, lengths n-1 / n+1; byte0 in 0..255 with the rest zero; one stray bit at every position behind first byte {c0,e0,80,a0,40,00}; coordinates {0,1,p-2..p+2,2^381-1} (G2: squared); \
-         small x (G1 x<256 quick / <2048 thorough; G2 c1<4,c0<16 quick / c1<8,c0<64 thorough) with both sign flags; \
-         secret-key strings: boundaries around 0, r, 2r, 2^255, 2^256 and every single-byte substitution of {r-1, r, 0, 2 seed keys}; mod_by_group_order on the same kind of set around 0, r, 2r, 2^255, -r, -2r. \
-         distinct = distinct cases (family + full input)",
+         synthetic: every key x hidden hash in {derive_synthetic(), explicit default, 00.., ff.., [k;32] k=1..4 (thorough ..12)}; addition: every ordered pair of keys; \
+         signing: every key x 6 messages (lengths 0,1,5,32,256,1000); pairing values: ordered pairs of 10 (quick) / all (thorough) non-zero keys; \
+         byte strings: for the base encodings (G1: G, -G, 1/4 seed keys, 1/2 keys whose x+p still fits 381 bits; G2: generator, a signature, thorough also -generator and a second signature): all 8 flag combinations, \
+         every single-byte substitution by all 256 values at every byte position (quick: G1 first base only, G2 first base at bytes 0-3,44-51,92-95; the other bases at bytes {0,1,47} (G2 also {48,95})), \
+         non-reduced aliases x+kp, lengths n-1 / n+1; byte0 in 0..255 with the rest zero; one stray bit {01,80} at every position behind first byte {c0,e0,80,a0,40,00}; coordinates {0,1,p-2..p+2,2^381-1} (G2: all pairs); \
+         small x (G1 x<256 quick / <8192 thorough; G2 c1<4,c0<16 quick / c1<16,c0<128 thorough) with both sign flags; every public key / signature produced by the laws at depth <=1 (quick) / <=2 (thorough); \
+         secret-key strings: boundaries around 0, r, 2r, 2^255, 2^256 and every single-byte substitution of {r-1, r, 0, 2 seed keys}, lengths 31/33; mod_by_group_order on boundaries and every single-byte substitution of {0, ff.., r, 2r, 2^255-1, 2^255, -r, -2r}. \
+         distinct = distinct cases (family + full input); all cases are distinct by construction",
     );
     rep.assume("reference arithmetic in c16_common (num-bigint Fp/Fp2, Jacobian double-and-add, ZCash encoding) is the definition; it is re-validated at start-up against the blspy / bls-signatures vectors quoted in the repo's unit tests");
     rep.assume("SHA-256 from the sha2 crate; the reference child / synthetic secret keys hash the public-key bytes produced by the real public_key(), which the G1 string checks and the vectors tie to the reference");
@@ -1178,6 +1171,11 @@ fn run(rep: &Report) {
         cases.push(Case::Seed(seed_bytes(i)));
     }
     let all_paths = paths(rep.tier.pick(2, 3));
+    let mut hs: Vec<Option<[u8; 32]>> = vec![None, Some(DEFAULT_HIDDEN_PUZZLE_HASH), Some([0u8; 32]), Some([0xffu8; 32])];
+    for b in 1..=rep.tier.pick(4u8, 12u8) {
+        hs.push(Some([b; 32]));
+    }
+    let msgs: Vec<Vec<u8>> = vec![vec![], vec![0], b"hello".to_vec(), vec![0xff; 32], (0..=255u8).collect(), (0..1000u32).map(|i| (i * 7 % 251) as u8).collect()];
     for k in &keys {
         for p in &all_paths {
             cases.push(Case::Derive { sk: *k, path: p.clone() });
@@ -1186,19 +1184,14 @@ fn run(rep: &Report) {
         for i in INDICES {
             cases.push(Case::Wallet { sk: *k, idx: Some(i) });
         }
-        let mut hs: Vec<Option<[u8; 32]>> = vec![None, Some(DEFAULT_HIDDEN_PUZZLE_HASH), Some([0u8; 32]), Some([0xffu8; 32])];
-        for b in 1..=rep.tier.pick(4u8, 12u8) {
-            hs.push(Some([b; 32]));
-        }
-        for h in hs {
-            cases.push(Case::Synthetic { sk: *k, h });
+        for h in &hs {
+            cases.push(Case::Synthetic { sk: *k, h: *h });
         }
         for k2 in &keys {
             cases.push(Case::Add { a: *k, b: *k2 });
         }
-        let msgs: Vec<Vec<u8>> = vec![vec![], vec![0], b"hello".to_vec(), vec![0xff; 32], (0..=255u8).collect(), (0..1000u32).map(|i| (i * 7 % 251) as u8).collect()];
-        for m in msgs {
-            cases.push(Case::Sign { sk: *k, msg: m });
+        for m in &msgs {
+            cases.push(Case::Sign { sk: *k, msg: m.clone() });
         }
     }
     // pairing values: non-zero keys only (the pairing of the point at infinity is not a value this API promises)
@@ -1268,31 +1261,64 @@ fn run(rep: &Report) {
     rep.extra("g2_base_encodings", json!(g2_bases.len()));
     let g1_small = rep.tier.pick((1u32, 256u32), (1, 8192));
     let g2_small = rep.tier.pick((4u32, 16u32), (16, 128));
-    let dense = rep.tier.pick(1usize, usize::MAX);
-    for s in point_strings(&cx, Group::G1, &g1_bases, dense, g1_small) {
+    // byte positions that get all 256 substitutions, per base encoding
+    let g1_pos = |bi: usize| -> Vec<usize> {
+        if !quick || bi == 0 { (0..48).collect() } else { vec![0, 1, 47] }
+    };
+    let g2_pos = |bi: usize| -> Vec<usize> {
+        if !quick {
+            (0..96).collect()
+        } else if bi == 0 {
+            // both ends of both coordinates
+            (0..4).chain(44..52).chain(92..96).collect()
+        } else {
+            vec![0, 1, 47, 48, 95]
+        }
+    };
+    for s in point_strings(&cx, Group::G1, &g1_bases, &g1_pos, g1_small) {
         cases.push(Case::G1(s));
     }
-    for s in point_strings(&cx, Group::G2, &g2_bases, dense, g2_small) {
+    for s in point_strings(&cx, Group::G2, &g2_bases, &g2_pos, g2_small) {
         cases.push(Case::G2(s));
     }
-    // every public key / signature the laws produce at depth <= 1 also goes through the full reference
-    let produced = catch(|| {
-        let mut v = Vec::new();
-        for k in &keys {
+    // every public key / signature the laws produce (derivation depth <= 1 quick / <= 2 thorough, every synthetic key,
+    // every signature) also goes through the full reference decoder + subgroup test. A panic while producing them is
+    // not reported here: the law cases above run the same calls and report it with a replayable case.
+    let prod_paths = paths(rep.tier.pick(1, 2));
+    let produced: Vec<Case> = keys
+        .par_iter()
+        .flat_map_iter(|k| {
+            let mut v: Vec<Case> = Vec::new();
             if let Ok(sk) = SecretKey::from_bytes(k) {
                 let pk = sk.public_key();
                 v.push(Case::G1(pk.to_bytes().to_vec()));
-                v.push(Case::G1(pk.derive_synthetic().to_bytes().to_vec()));
-                v.push(Case::G1(pk.derive_unhardened(0).to_bytes().to_vec()));
-                v.push(Case::G2(sign(&sk, b"hello").to_bytes().to_vec()));
+                for p in &prod_paths {
+                    let r = catch(|| {
+                        let mut q = pk;
+                        for i in p {
+                            q = q.derive_unhardened(*i);
+                        }
+                        q.to_bytes().to_vec()
+                    });
+                    v.extend(r.ok().map(Case::G1));
+                }
+                for h in &hs {
+                    let r = catch(|| match h {
+                        None => pk.derive_synthetic().to_bytes().to_vec(),
+                        Some(h) => pk.derive_synthetic_hidden(h).to_bytes().to_vec(),
+                    });
+                    v.extend(r.ok().map(Case::G1));
+                }
+                for m in &msgs {
+                    let r = catch(|| sign(&sk, m).to_bytes().to_vec());
+                    v.extend(r.ok().map(Case::G2));
+                }
             }
-        }
-        v
-    });
-    match produced {
-        Ok(v) => cases.extend(v),
-        Err(p) => rep.violation("C16/derive/panic", json!({"kind":"produced"}), format!("producing keys for the string checks panicked: {p}")),
-    }
+            v.into_iter()
+        })
+        .collect();
+    rep.extra("produced_encodings_through_reference", json!(produced.len()));
+    cases.extend(produced);
     let seed_keys: Vec<[u8; 32]> = keys.iter().take(2).copied().collect();
     for s in sk_strings(&cx, &seed_keys) {
         cases.push(Case::Sk(s));
